@@ -122,6 +122,22 @@ def family(rng, b, tier, rich):
         bad = raw_t[:k] + rng.choice([b"x", b"-", b"|", b",", b" ", b"99999999999"]) + raw_t[k + rng.choice([0, 1]):]
         cnt[0] += 1
         prog.append(["c%d" % cnt[0], "from_string", hexs(bad)])
+    # non-ASCII White_Space characters (2- and 3-byte UTF-8) around separators, delivered in chunks of 1..3 bytes so that read
+    # boundaries fall inside the characters
+    UWS = ["\u00a0", "\u0085", "\u1680", "\u2003", "\u2028", "\u205f", "\u3000", " ", "\t"]
+    for _ in range(2 if rich else 1):
+        out = []
+        for ch in py_to_text(b).decode("ascii"):
+            if ch in "|," and rng.random() < 0.5:
+                out.append(rng.choice(UWS))
+            out.append(ch)
+            if ch in "|," and rng.random() < 0.4:
+                out.append(rng.choice(UWS))
+        txt = "".join(out).encode("utf-8")
+        cnt[0] += 1
+        prog.append(["c%d" % cnt[0], "read_string_sched", hexs(txt), sched_sx(random_clean_schedule(rng, len(txt), cover=True, maxchunk=rng.choice([1, 2, 3])))])
+        cnt[0] += 1
+        prog.append(["c%d" % cnt[0], "read_string_sched", hexs(txt), sched_sx([])])
     # whitespace around separators
     for _ in range(3 if rich else 1):
         txt = ws_variant(rng, py_to_text(b))
